@@ -118,7 +118,7 @@ var props = []Prop{
 		ID: "C17",
 		Harnesses: []H{{Pkg: "ecs", Fn: "HC17_DumpLoad"}, {Pkg: "ecs", Fn: "HC17_Refuse", W: 2}, {Pkg: "ecs", Fn: "HC17_Large", W: 4}, {Pkg: "ecs", Fn: "HC17_JSON", W: 1}},
 		Conform: stdConform,
-		Bounds:  "source history: 2, 3 or 5 creations followed by up to 2 (thorough 3) removals of symbolically chosen alive entities, each optionally followed by a re-creation (free-list depth 0..3, mixed generations; with 2 creations the world can be empty at dump time); 6 triples of capacity increments (1..4) for source and the two receivers; receiver 1 = fresh world loaded at once (Alive of every issued handle, dump(loaded) == dump field by field incl. the Alive sequence); then the source is optionally mutated (removal / creation); receiver 2 = fresh or reset world loaded later from the same dump object (snapshot semantics); then a common suffix of 2 (thorough 3) creations/removals on all worlds with identical handles and Alive answers, final dumps equal (Alive as a set); refusal for worlds with entities, with recycled ids but no reset, locked; acceptance after Reset; HC17_Large: dumps of 64 / 65 / 130 entities (beyond one 64-bit word of the internal bit sets) loaded into fresh or reset worlds with capacity increments 1 / 7 / 128, followed by removals, creations and relation-target use of the highest ids in original and copy",
+		Bounds:  "source history: 2, 3 or 5 (thorough: 3 or 5) creations followed by up to 2 (thorough 3) removals of symbolically chosen alive entities, each optionally followed by a re-creation (free-list depth 0..3, mixed generations; with 2 creations the world can be empty at dump time); 6 triples of capacity increments (1..4) for source and the two receivers; receiver 1 = fresh world loaded at once (Alive of every issued handle, dump(loaded) == dump field by field incl. the Alive sequence); then the source is optionally mutated (removal / creation); receiver 2 = fresh or reset world loaded later from the same dump object (snapshot semantics); then a common suffix of 2 (thorough 3) creations/removals on all worlds with identical handles and Alive answers, final dumps equal (Alive as a set); refusal for worlds with entities, with recycled ids but no reset, locked; acceptance after Reset; HC17_Large: dumps of 64 / 65 / 130 entities (beyond one 64-bit word of the internal bit sets) loaded into fresh or reset worlds with capacity increments 1 / 7 / 128, followed by removals, creations and relation-target use of the highest ids in original and copy",
 		Outside: "JSON syntax itself: encoding/json.Marshal / Unmarshal of [2]uint32 are replaced by an abstract lossless encoding in the engine (Entity.MarshalJSON / UnmarshalJSON around them are executed for every 32-bit id and generation; the native replay uses the real encoding/json); JSON of whole dumps; dumps not produced by DumpEntities; more than 8 handles",
 	},
 	{
